@@ -119,6 +119,11 @@ fn client_set_name(it: &mut ResponseIterator, name: &[u8]) -> (r: Result<(), Err
         r.is_ok() ==> final(it).wf() && pf_packet(final(it).pk()) && !final(it).pp().maybe_compressed
             && final(it).rr_iterator.offset.is_some() && final(it).rr_iterator.rrs_left == old(it).rr_iterator.rrs_left
             && final(it).rr_iterator.section == old(it).rr_iterator.section && final(it).count() == old(it).count(),
+        // C09: "setting a name replaces only that record's owner name"; every other record keeps its bytes and its place in the order
+        r.is_ok() ==> (exists|mid: ParsedPacket| #[trigger] after_unc(mid, old(it).pp()) && ({
+            let u = mid.bytes(); let v = final(it).pk(); let si = sec_idx(old(it).rr_iterator.section); let k = old(it).visited() - 1;
+            others_kept(u, v, si, k, 1, 1)
+            && rec_bytes(v, sec_st(u, si), k) == name@.subrange(0, name_end(name@, 0).unwrap()) + u.subrange(cur_ne(old(it), mid), cur_next(old(it), mid)) })),
         final(it).tfin() == old(it).tfin(),
 {
     hide(pf_rr); hide(pf_rrs); hide(pf_rrs_end); hide(pf_n_opt); hide(pf_packet); hide(opt_at); hide(pcs_walk); hide(rec_ok); hide(opts); hide(wf_bytes); hide(recs_all); hide(sec_end); hide(n_opt);
@@ -134,6 +139,7 @@ fn client_set_name(it: &mut ResponseIterator, name: &[u8]) -> (r: Result<(), Err
             let mid = choose|mid: ParsedPacket| #[trigger] after_unc(mid, pp0) && named(it.pp(), mid, o, cur_ne(&it0, mid), nm);
             let u = mid.bytes(); let fin = it.pp(); let v = fin.bytes(); let st = sec_st(u, si); let n = sec_n(u, si);
             lemma_named_wf(fin, mid, si, k, nm);
+            lemma_named_recs(fin, mid, si, k, nm);
             lemma_pf_rec(v, o as int);
             lemma_cursor_wf(it, si, k);
             lemma_pf_wf_bytes(v);
@@ -152,6 +158,8 @@ pub open spec fn cut_post(it0: &ResponseIterator, mid: ParsedPacket, v: Seq<u8>)
     && v.len() == u.len() - (next - o) && o < next
     && (forall|i: int| 12 <= i < o ==> v[i] == u[i])
     && (forall|i: int| o <= i < v.len() ==> v[i] == u[i + (next - o)])
+    // C09: every other record of the packet keeps its bytes; the records of this section keep their order
+    && others_kept(u, v, si, k, 1, 0)
 }
 // C11: "each deletion removes exactly the record under the cursor, a second deletion through the same cursor reports a void record without touching anything"
 fn client_delete(it: &mut ResponseIterator) -> (r: Result<(), Error>)
@@ -171,12 +179,15 @@ fn client_delete(it: &mut ResponseIterator) -> (r: Result<(), Error>)
     let ghost ne0 = it.rr_iterator.name_end as int;
     proof { lemma_resp_pre(it); }
     let r = it.delete();
+    let ghost midg: ParsedPacket = choose|mid: ParsedPacket| #[trigger] after_unc(mid, pp0) && deleted(it.pp(), mid, o, cur_next(&it0, mid), sec_of_idx(si), sec_of_idx(si) is Additional && be16(p, ne0) == 41);
+    let ghost v1 = it.pk();
     proof {
         let s = sec_of_idx(si);
-        let mid = choose|mid: ParsedPacket| #[trigger] after_unc(mid, pp0) && deleted(it.pp(), mid, o, cur_next(&it0, mid), s, s is Additional && be16(p, ne0) == 41);
+        let mid = midg;
         let fin = it.pp(); let v = fin.bytes(); let u = mid.bytes();
         assert(pf_is_opt(u, o as int) == (be16(p, ne0) == 41));
         lemma_deleted_wf(fin, mid, si, k);
+        lemma_deleted_recs(fin, mid, si, k);
         lemma_pf_rr_spec(u, o as int, SecT::Answer, false);
         lemma_pf_wf_bytes(v);
         lemma_pf_packet_facts(u);
@@ -187,7 +198,7 @@ fn client_delete(it: &mut ResponseIterator) -> (r: Result<(), Error>)
     // a second deletion through the same cursor
     let ghost it1 = *it;
     let r2 = it.delete();
-    proof { assert(r2.is_err() && it.pp() == it1.pp() && it.rr_iterator.offset.is_none()); }
+    proof { assert(r2.is_err() && it.pp() == it1.pp() && it.rr_iterator.offset.is_none()); assert(it.pk() == v1); assert(cut_post(old(it), midg, it.pk())); }
     r
 }
 
@@ -201,7 +212,9 @@ fn client_insert(pp: &mut ParsedPacket, section: Section, rr: RR) -> (r: Result<
         r.is_err() ==> final(pp).bytes() == old(pp).bytes(),
         r.is_ok() ==> ({ let u = old(pp).bytes(); let v = final(pp).bytes(); let si = sec_idx(section); let st = sec_st(u, si); let n = sec_n(u, si);
             final(pp).bytes().len() <= 8192 && sec_n(v, si) == n + 1 && sec_st(v, si) == st && pf_rrs_end(v, st, n) == pf_rrs_end(u, st, n)
-            && pf_rr(v, pf_rrs_end(u, st, n)) && pf_end(v, pf_rrs_end(u, st, n)) == pf_rrs_end(u, st, n) + rr.packet@.len() }),
+            && pf_rr(v, pf_rrs_end(u, st, n)) && pf_end(v, pf_rrs_end(u, st, n)) == pf_rrs_end(u, st, n) + rr.packet@.len()
+            // C09: "inserting appends the given record at the end of the chosen section"; every other record keeps its bytes and its place
+            && others_kept(u, v, si, n, 0, 1) && rec_bytes(v, st, n) == rr.packet@ }),
 {
     hide(pf_rr); hide(pf_rrs); hide(pf_rrs_end); hide(pf_n_opt); hide(pf_packet); hide(opt_at); hide(pcs_walk); hide(rec_ok); hide(opts); hide(wf_bytes); hide(recs_all); hide(sec_end); hide(n_opt);
     hide(ParsedPacket::wf); hide(walk); hide(skip_walk); hide(inserted);
@@ -214,6 +227,7 @@ fn client_insert(pp: &mut ParsedPacket, section: Section, rr: RR) -> (r: Result<
             lemma_wf_eq(mid, pp0);
             assert(sec_n(mid.bytes(), si) < 0xffff) by { reveal(inserted); }
             lemma_inserted_wf(*pp, mid, si, rrb);
+            lemma_inserted_recs(*pp, mid, si, rrb);
             assert(!pp.maybe_compressed) by { reveal(inserted); }
         } else {
             assert(pp_eq(*pp, pp0));
